@@ -120,6 +120,9 @@ def convert(t, var_names, assms, to_real, ctx):
         elif t.is_implies():
             return z3.Implies(rec(t.arg1), rec(t.arg))
         elif t.is_equals():
+            T = t.arg1.get_type()
+            if T.is_fun() or (T.is_tconst() and T.name == 'set'):
+                raise Z3Exception("convert: unsupported equality at type " + repr(T))
             return rec(t.arg1) == rec(t.arg)
         elif t.is_conj():
             return z3.And(rec(t.arg1), rec(t.arg)) if ctx is None else z3.And(rec(t.arg1), rec(t.arg), ctx)
